@@ -106,10 +106,12 @@ struct Run {
         } else {
             cur_path = fresh() + ".fd";
             int fd = ::open(cur_path.c_str(), O_CREAT | O_WRONLY | O_TRUNC, 0600);
+            cur_fd = fd;
             exp.reset(new CdnsExporter(fp, fd, cc()));
         }
     }
     bool last_rot_mismatch = false;
+    int cur_fd = -1;
     // rotation whose argument is of the other kind than the constructor's (a name for a descriptor exporter)
     std::size_t rotate_mismatch(bool exp_block) {
         std::size_t r = exp->rotate_output(fresh() + ".never", exp_block);
@@ -121,7 +123,8 @@ struct Run {
     // output being closed is complete under that name when the call returns, the new one replaces it when it is closed
     // ext: the new name is the name in use plus the compression extension ("x" -> "x.gz" under gzip): another name, hence
     // another file ("x.gz.gz"); the output being closed ("x.gz") is not touched again
-    std::size_t rotate(bool exp_block, bool same = false, bool ext = false) {
+    // fd0: (descriptor outputs) the new output's descriptor is 0 - what open() returns in a process that closed its standard input
+    std::size_t rotate(bool exp_block, bool same = false, bool ext = false, bool fd0 = false) {
         std::size_t r;
         last_rot_mismatch = false;
         if (outkind == "file") {
@@ -135,6 +138,9 @@ struct Run {
             std::string oldp = cur_path;
             std::string next = fresh() + ".fd";
             int fd = ::open(next.c_str(), O_CREAT | O_WRONLY | O_TRUNC, 0600);
+            // (not while descriptor 0 is the output in use: it would be replaced under the exporter's feet)
+            if (fd0 && fd > 0 && cur_fd != 0) { dup2(fd, 0); ::close(fd); fd = 0; }
+            cur_fd = fd;
             r = exp->rotate_output(fd, exp_block);
             cur_path = next;
             pending_out = oldp;
@@ -169,7 +175,7 @@ struct Run {
             else if (o == "mm") ret = exp->buffer_mm(vr::mm_in(op["r"]), st);
             else if (o == "wb") ret = exp->write_block();
             else if (o == "rot" && op.value("mismatch", false) && outkind == "fd") ret = rotate_mismatch(op.value("export", false));
-            else if (o == "rot") ret = rotate(op.value("export", false), op.value("same", false), op.value("ext", false));
+            else if (o == "rot") ret = rotate(op.value("export", false), op.value("same", false), op.value("ext", false), op.value("fd0", false));
             else if (o == "rotbad") {
                 // a rotation that cannot succeed (a descriptor that is not open / a name in a directory that does not
                 // exist); the call reports it.  Only used where outputs are compared, not modelled (C20 byte identity).
